@@ -195,6 +195,11 @@ func spawn(c *Check, tier string, seed int64, batch, only int, race bool, dir st
 	cmd.Env = append(os.Environ(), "GOTRACEBACK=all")
 	if race {
 		cmd.Env = append(cmd.Env, "GORACE=halt_on_error=0 history_size=3 log_path="+filepath.Join(dir, tag+".race"))
+		if !c.Race {
+			// the additional -race batch of the thorough tier runs the quick tier's case counts: under
+			// the race detector a batch is about ten times slower
+			cmd.Env = append(cmd.Env, "VERIF_QUICK_COUNTS=1")
+		}
 	}
 	to := 15 * time.Minute
 	if tier == "thorough" {
